@@ -5,11 +5,9 @@ CONSTANT DropKind = "ra"
 CONSTANT DropIdx = 4
 CONSTANT Cases <- CasesRa
 CONSTANT Sel = {}
+CONSTANT DegShift = 0
 INIT InitRows
 NEXT NextRows
 INVARIANT Satisfied
 INVARIANT PinnedInv
-INVARIANT CountInv
-INVARIANT LayoutInv
-INVARIANT UniqueInv
 CHECK_DEADLOCK FALSE
